@@ -1,4 +1,5 @@
 import Tally.Generated.Facts
+import Tally.Model.ScopeCard
 /-! Tie for C06: the comparisons of `sanitizeFn` the model mirrors (range test `>=`/`<=`, character
 equality, the width-1 decoding-error test of repair D11). -/
 namespace Tally.Tie.C06
@@ -8,5 +9,26 @@ theorem sanitize_comparisons : Facts.sanitizeComparisons =
     ["i < len(c.Ranges)", "ch >= c.Ranges[i][0]", "ch <= c.Ranges[i][1]", "i < len(c.Characters)",
      "c.Characters[i] == ch", "ch == utf8.RuneError", "width <= 1", "buf == nil", "buf == nil", "idx > 0",
      "buf == nil"] := rfl
+
+/-! the library's own cardinality gauges (`Tally.ScopeCard`): names, default tag values and the reporter calls
+of `reportInternalMetrics` (the bodies of the registry's constructor and of `reportInternalMetrics` are frozen in
+`Tie/C06Frozen.lean`) -/
+open Tally.ScopeCard in
+theorem card_constants :
+    version = asc Facts.tallyVersion ∧ redact = asc Facts.defaultTagRedactValue ∧
+    counterCardinalityName = asc Facts.counterCardinalityName ∧
+    gaugeCardinalityName = asc Facts.gaugeCardinalityName ∧
+    histogramCardinalityName = asc Facts.histogramCardinalityName ∧
+    scopeCardinalityName = asc Facts.scopeCardinalityName := by decide
+
+theorem card_reporter_calls : Facts.reportInternalMetricsCalls =
+    ["r.root.reporter.ReportGauge(r.sanitizedCounterCardinalityName, r.cardinalityMetricsTags, float64(counters))",
+     "r.root.reporter.ReportGauge(r.sanitizedGaugeCardinalityName, r.cardinalityMetricsTags, float64(gauges))",
+     "r.root.reporter.ReportGauge(r.sanitizedHistogramCardinalityName, r.cardinalityMetricsTags, float64(histograms))",
+     "r.root.reporter.ReportGauge(r.sanitizedScopeCardinalityName, r.cardinalityMetricsTags, float64(scopes))",
+     "r.cachedCounterCardinalityGauge.ReportGauge(float64(counters))",
+     "r.cachedGaugeCardinalityGauge.ReportGauge(float64(gauges))",
+     "r.cachedHistogramCardinalityGauge.ReportGauge(float64(histograms))",
+     "r.cachedScopeCardinalityGauge.ReportGauge(float64(scopes))"] := rfl
 
 end Tally.Tie.C06
